@@ -2,4 +2,4 @@ CONSTANTS
   MaxText = 2
 INIT Init
 NEXT Next
-INVARIANTS RoundTrip NoForeignText TextChangeRejected Emit ResignKeepsOthers EmitResign
+INVARIANTS RoundTrip NoForeignText TextChangeRejected Emit ResignKeepsOthers EmitResign EmitMany
